@@ -232,7 +232,8 @@ def evaluate_z3_re_loop(
 
     return Some(
         construct_result(
-            lambda args: f"({args[0]}){{{expr.params()[0]},{expr.params()[1]}}}",
+            lambda args: f"({args[0]}){{{expr.params()[0]},"
+            + f"{expr.params()[1] if len(expr.params()) > 1 else ''}}}",
             children_results,
         )
     )
